@@ -1,5 +1,7 @@
 import abc
+import unicodedata
 from collections import OrderedDict
+from typing import Optional
 from typing import Tuple
 from typing import Union
 
@@ -69,6 +71,26 @@ _MONTH_FULL = list(_MONTH_ABBREV_TO_FULL.values())
 _LOWERCASE_FULL = list(m.lower() for m in _MONTH_FULL)
 
 
+def _int_of_decimal_str(value: str) -> Optional[int]:
+    """The int a decimal string denotes; None if `int()` refuses it even without leading zeros.
+
+    `int()` rejects strings with more digits than `sys.get_int_max_str_digits()`."""
+    start = 0
+    while start < len(value) - 1 and unicodedata.decimal(value[start]) == 0:
+        start += 1
+    try:
+        return int(value[start:])
+    except ValueError:
+        return None
+
+
+def _unknown_month_message(value: int) -> str:
+    try:
+        return f"month-field unchanged - unknown month {value}"
+    except ValueError:  # ints too large to be formatted
+        return "month-field unchanged - unknown month"
+
+
 class MonthLongStringMiddleware(_MonthInterpolator):
     """Replace month numbers with full month names.
 
@@ -89,12 +111,14 @@ class MonthLongStringMiddleware(_MonthInterpolator):
     def resolve_month_field_val(self, month_field: Field):
         v = month_field.value
         if isinstance(v, str) and v.isdecimal():
-            v = int(v)
+            as_int = _int_of_decimal_str(v)
+            if as_int is not None:
+                v = as_int
         if isinstance(v, int):
             if v < 1 or v > 12:
                 return (
                     month_field.value,
-                    f"month-field unchanged - unknown month {v}",
+                    _unknown_month_message(v),
                 )  # Nothing we can do here
             return _MONTH_FULL[v - 1], "transformed int-month to str-month"
         elif isinstance(v, str):
@@ -133,11 +157,13 @@ class MonthAbbreviationMiddleware(_MonthInterpolator):
     def resolve_month_field_val(self, month_field: Field):
         v = month_field.value
         if isinstance(v, str) and v.isdecimal():
-            v = int(v)
+            as_int = _int_of_decimal_str(v)
+            if as_int is not None:
+                v = as_int
         if isinstance(v, int):
             if v < 1 or v > 12:
                 # Nothing we can do here
-                return month_field.value, f"month-field unchanged - unknown month {v}"
+                return month_field.value, _unknown_month_message(v)
             return _MONTH_ABBREV[v - 1], "transformed int-month to abbreviated month"
         elif isinstance(v, str):
             v_lower = v.lower()
@@ -181,7 +207,8 @@ class MonthIntMiddleware(_MonthInterpolator):
                 )
 
         if isinstance(v, str) and v.isdecimal():
-            if 1 <= int(v) <= 12:
-                return int(v), "cast month int-string to int"
+            as_int = _int_of_decimal_str(v)
+            if as_int is not None and 1 <= as_int <= 12:
+                return as_int, "cast month int-string to int"
 
         return month_field.value, "month field unchanged"
